@@ -323,7 +323,7 @@ function allCases(thorough) {
     out.push({ group: 'script', name: `two-inline|${JSON.stringify(b)}`, make: () => ({ files: [['m', `<wxs module="m">${b}</wxs><wxs module="n">${b}</wxs>`], ['n', `<wxs module="m">${b}</wxs>`]], scripts: [['s', b], ['t', b]] }) })
   }
   // the extra runtime script of a group (documented: valid statements ended by a semicolon), with and without scripts in the group
-  for (const extra of ['foo();', 'var a=1;', 'function f(){};', '/* c */;', 'foo();bar();', 'if(x){y()};', '"use strict";', 'foo(); // trailing\n;']) {
+  for (const extra of ['foo();', 'var a=1;', 'function f(){};', '/* c */;', 'foo();bar();', 'if(x){y()};', '"use strict";', 'foo(); // trailing\n;', 'var e = 1; // note']) {
     for (const withScripts of [0, 1, 2]) {
       out.push({ group: 'runtime-extra', name: `extra|${JSON.stringify(extra)}|${withScripts}`, make: () => ({ files: [['m', withScripts === 2 ? '<wxs module="m">exports.f=1</wxs><a b="{{m.f}}"/>' : '<a b="{{x}}"/>']], scripts: withScripts === 1 ? [['s', 'exports.f=1']] : [], extra }) })
     }
